@@ -38,15 +38,17 @@ def gen_cases(ctx):
                             "pvars": rng.random() < 0.6, "rev": rng.random() < 0.35,
                             "proto": rng.choice(["out.nc", "out.nc", "run_04.nc", "a_b_007.nc", "x_99.nc", "ladim_2020_000.nc", "run10_010.nc", "r__1.nc", "t_0_00.nc",
                                                  "out.v2.nc", "run.2000-01_07.nc", "a.b.c_1.nc"]),
-                            "rem": rng.choice([0, 0, 0, 250]), "ref": rng.choice([None, None, -946684800, 10**9])})
+                            "rem": rng.choice([0, 0, 0, 250]), "ref": rng.choice([None, None, -946684800, 10**9]),
+                            "dt": [600, 300, 1200, 200][len(out) % 4]})
     for N, p, numrec in ([(5, 2, 0), (5, 2, 2), (7, 3, 2), (6, 2, 3), (4, 1, 4), (1, 3, 1)] if ctx.quick else
                          [(rng.randint(1, 20), rng.randint(1, 6), rng.randint(0, 4)) for _ in range(40)]):
         out.append({"k": "main", "N": N, "p": p, "numrec": numrec, "layout": rng.choice(["sparse", "dense"]),
-                    "pvars": True, "rev": rng.random() < 0.4, "proto": "o.nc", "rem": 0, "ref": rng.choice([None, -946684800])})
+                    "pvars": True, "rev": rng.random() < 0.4, "proto": "o.nc", "rem": 0, "ref": rng.choice([None, -946684800]),
+                    "dt": [600, 300, 1200][len(out) % 3]})
     return out
 
 
-def observe_files(d, proto, multifile, tstart, rev):
+def observe_files(d, proto, multifile, tstart, rev, DT=DT):
     stem, suffix = Path(proto).stem, Path(proto).suffix
     m = re.search(r"_(\d+)$", stem)
     prefix = stem[: m.start()] if m else stem
@@ -80,6 +82,9 @@ def observe_files(d, proto, multifile, tstart, rev):
 
 def eval_case(desc, ctx):
     N, p, numrec, rev = desc["N"], desc["p"], desc["numrec"], desc["rev"]
+    # the time step differs from case to case (the same output period in seconds is then another number of steps)
+    DT = desc.get("dt", 600)
+    desc = dict(desc, rem=desc["rem"] if desc["rem"] < DT else DT // 2)  # the part of a step left over at the end
     if N * DT + desc["rem"] == 0:
         rev = False  # a zero-length window is forward by definition
     d = ctx.subdir(f"c07_{N}_{p}_{numrec}_{desc['k']}")
@@ -130,7 +135,7 @@ def eval_case(desc, ctx):
             rl.run_main(conf, d)
         except BaseException as e:  # noqa: BLE001
             crashed = f"{type(e).__name__}: {e}"
-    files = [] if crashed else observe_files(d, desc["proto"], numrec > 0, tstart, rev)
+    files = [] if crashed else observe_files(d, desc["proto"], numrec > 0, tstart, rev, DT)
     stem = Path(desc["proto"]).stem
     m = re.search(r"_(\d+)$", stem)
     ints = [N, p, numrec, int(numrec > 0), int(bool(m)), int(m.group(1)) if m else 0, len(m.group(1)) if m else 0,
